@@ -35,7 +35,7 @@ func (m *K2PModel) Distance(seq1 []uint8, seq2 []uint8, weights []float64) (floa
 	trS, trV = trS/total, trV/total
 
 	if m.gamma {
-		dist = m.alpha * (.5*math.Pow(1.-2.*trS-trV, -1./m.alpha) + .25*math.Pow(1.-2.*trV, -1./m.alpha) - .75)
+		dist = m.alpha * (.5*gammaPow(1.-2.*trS-trV, m.alpha) + .25*gammaPow(1.-2.*trV, m.alpha) - .75)
 	} else {
 		dist = -.5*math.Log(1.-2.*trS-trV) - .25*math.Log(1.-2.*trV)
 	}
